@@ -123,7 +123,8 @@ def mock_database(provider_name):
     VerifProvider.__name__ = base.__name__
     db = Database()
     db.provider_name = provider_name
-    db._bind(VerifProvider, pony_pool_mockup=FakePool())
+    args = (':memory:',) if provider_name == 'sqlite' else ()
+    db._bind(VerifProvider, *args, pony_pool_mockup=FakePool())
     return db
 
 
